@@ -27,7 +27,9 @@ where
     d.wall = wall;
     // C01's verdict is itself "two executions differ": the differing line may change from
     // run to run, so the identical-verdict re-execution does not apply
-    d.recheck = rep.property != "C01";
+    // (C20's preemption-bounded part: a barrier that wrongly stays in the thread-local registry
+    // outlives its execution, so a violation caused by it need not repeat identically)
+    d.recheck = rep.property != "C01" && !(rep.property == "C20" && name.contains("preemption-bounded"));
     let st = explore_dfs(&d, f);
     for s in st.samples.iter().take(2) {
         rep.sample(json!({"part": name, "choices": s}));
@@ -58,7 +60,7 @@ fn main() {
     }
     let tier = Tier::parse(&args[2]);
     let thorough = tier == Tier::Thorough;
-    let wall = tier.pick(Duration::from_secs(45), Duration::from_secs(900));
+    let wall = tier.pick(Duration::from_secs(120), Duration::from_secs(900));
     match args[1].as_str() {
         "C02" => {
             let mut rep = Report::new("C02", tier, "model_checking", "sim");
